@@ -93,6 +93,12 @@ class FrameParser(Parser):
             )
             if self.validate:
                 frame.validate()
+                if frame.is_control and payload_length > 125:
+                    # The payload is not read yet, so validate() can't see
+                    # its size; check the declared length here.
+                    raise errors.ProtocolError(
+                        "control frames must be <= 125 bytes in length"
+                    )
 
             if frame.is_text:
                 self._is_text = True
